@@ -38,10 +38,13 @@ def jac_fp(comp):
     h = hashlib.blake2b(digest_size=8)
     try:
         info = comp._jacobian._subjacs_info
+        explicit = isinstance(comp, ExplicitComponent)
         for key in sorted(info):
             v = info[key].get("val")
             if v is None:
                 continue
+            if explicit and key[0] == key[1]:
+                continue  # d out / d out = -I of an explicit component: kept by the framework (scalar or expanded lazily), not by the component
             if hasattr(v, "toarray"):
                 v = v.toarray()
             h.update(("%s|%s" % key).encode())
